@@ -298,6 +298,11 @@ def run(ctx: Ctx):
         ctx.fail(cons + "#missing", T.f.loc(), f"handshake time-outs exist only for {sorted(seen)}: a "
                  f"connection whose expected CER/CEA never arrives is never closed")
     T.check_overrides(ctx, ["cea_timeout", "cer_timeout"], "C06-R5")
+    # the CER/CEA time-outs are enforced by the timer pass: it runs in every round of the loop
+    from .common_node import io_loop_every_round
+    io_loop_every_round(ctx, "C06-R5b", want=("timers",))
+    from .common_node import clock_agreement
+    clock_agreement(ctx, "C06-R5c", {("node.peer", "PeerConnection", "_created"): ["lifetime"]})
 
     # ---------------- R6 routing only when ready ----------------------------------------------------
     ready_state_stores(ctx, "C06-R6")
